@@ -36,8 +36,8 @@ EXTENDS SoyBundleRun, Json
 
 CONSTANTS CfgName, MaxLen
 
-VARIABLES reg, store, hist
-bvars == <<reg, store, hist>>
+VARIABLES reg, store, hist, cfgv
+bvars == <<reg, store, hist, cfgv>>
 
 (***************************************************************************)
 (* The bundle.  Print nodes carry an identity so that their directive      *)
@@ -122,7 +122,9 @@ T3 == [params |-> <<[name |-> "x", opt |-> FALSE], [name |-> "n", opt |-> FALSE]
                                    AugCall("C", <<[key |-> "q", val |-> EI(1)]>>),
                                    CallE("a.t0", [k |-> "map", items |-> <<[key |-> "z", val |-> ES("L")]>>], <<PV("z", ES("D"))>>)>>)],
                    [k |-> "letc", name |-> "w", body |-> <<Tx("w"), Pr("p9", Var("n"), <<>>)>>],
-                   Pr("p10", Var("w"), <<>>) >>]
+                   Pr("p10", Var("w"), <<>>),
+                   \* goes to the logger the embedder has set, not to the output
+                   [k |-> "log", body |-> <<Tx("L"), Pr("p17", Var("n"), <<>>)>>] >>]
 
 TheBundle == ("a.t0" :> T0) @@ ("a.t1" :> T1) @@ ("a.t2" :> T2) @@ ("b.t3" :> T3)
 Templates == <<"a.t1", "a.t2", "b.t3">>
@@ -130,7 +132,7 @@ Templates == <<"a.t1", "a.t2", "b.t3">>
 \* the source files and the print nodes each contains, in source order
 Files == <<"a.soy", "b.soy">>
 FileIds == ("a.soy" :> <<"p1", "p2", "p11", "p12", "p13", "p14", "p3", "p4", "p5", "p6", "p16">>)
-           @@ ("b.soy" :> <<"p7", "p8", "p15", "p9", "p10">>)
+           @@ ("b.soy" :> <<"p7", "p8", "p15", "p9", "p10", "p17">>)
 
 TheExpr == Bin("add", Fn("round", <<[k |-> "float", num |-> 7, sh |-> 1]>>),
                       Fn("length", <<[k |-> "list", items |-> <<EI(1), EI(2)>>]>>))
@@ -153,7 +155,8 @@ Dirs0 == [id \in {p.id : p \in AllPrints} |-> (CHOOSE p \in AllPrints : p.id = i
 ASSUME \A f \in DOMAIN FileIds : \A i \in 1..Len(FileIds[f]) : FileIds[f][i] \in DOMAIN Dirs0
 ASSUME Cardinality(AllPrints) = Cardinality(DOMAIN Dirs0)      \* identities are unique
 
-Reg0 == [bundle |-> TheBundle, dirs |-> Dirs0, memo |-> [x \in {} |-> <<>>]]
+Reg0 == [bundle |-> TheBundle, dirs |-> Dirs0, memo |-> [x \in {} |-> <<>>],
+         oblcache |-> <<>>]      \* (package state used only by a deviation)
 
 DataSets == <<"d1", "d2", "d3">>
 Store0 == [data |-> [d1 |-> [x |-> S("u<v"), xs |-> L(<<I(1), I(2)>>), n |-> I(3),
@@ -164,22 +167,58 @@ Store0 == [data |-> [d1 |-> [x |-> S("u<v"), xs |-> L(<<I(1), I(2)>>), n |-> I(3
            ij |-> M([who |-> S("W&")]),
            cat |-> "identity"]     \* a catalogue that translates every message to itself
 
-TheCfg ==
-  CASE CfgName = "oblig" -> [oblig |-> <<"exclaim">>, dirs |-> {"exclaim"}, fns |-> NoFn]
-    [] CfgName = "fn" -> [oblig |-> <<>>, dirs |-> {}, fns |-> [vmax2 |-> "max"]]
-    [] CfgName = "both" -> [oblig |-> <<"exclaim">>, dirs |-> {"exclaim"}, fns |-> [vmax2 |-> "max"]]
-    [] OTHER -> NoCfg
+FixedCfgs == [none |-> NoCfg,
+              oblig |-> [oblig |-> <<"exclaim">>, dirs |-> {"exclaim"}, fns |-> NoFn],
+              fn |-> [oblig |-> <<>>, dirs |-> {}, fns |-> [vmax2 |-> "max"]],
+              both |-> [oblig |-> <<"exclaim">>, dirs |-> {"exclaim"}, fns |-> [vmax2 |-> "max"]]]
+
+(***************************************************************************)
+(* The configuration is part of the state.  With CfgName = "switch" the     *)
+(* embedder changes it BETWEEN operations: every piece of settable package  *)
+(* state (obligatory directive list: other names of the same length,        *)
+(* reordered, emptied, restored; a directive / a function replaced by       *)
+(* another implementation under the same name) and what a Renderer is given *)
+(* ($ij, message catalogue).  A configuration:                              *)
+(*   [name, oblig, dirs, sfx (directive -> suffix it appends), fns,         *)
+(*    ij ("a" | "b": which injected data), msgs (catalogue given or not)]   *)
+(***************************************************************************)
+SC(name, oblig, sfx, fns, ij, msgs) ==
+  [name |-> name, oblig |-> oblig, dirs |-> DOMAIN sfx, sfx |-> sfx, fns |-> fns, ij |-> ij, msgs |-> msgs]
+NoSfx == [x \in {} |-> ""]
+BothSfx == [exclaim |-> "!", stars |-> "*"]
+SwitchCfgs ==
+  << SC("none", <<>>, NoSfx, NoFn, "a", TRUE),
+     SC("E", <<"exclaim">>, BothSfx, NoFn, "a", TRUE),
+     SC("S", <<"stars">>, BothSfx, NoFn, "a", TRUE),                 \* same length, another name
+     SC("ES", <<"exclaim", "stars">>, BothSfx, NoFn, "a", TRUE),
+     SC("SE", <<"stars", "exclaim">>, BothSfx, NoFn, "a", TRUE),     \* reordered
+     SC("E2", <<"exclaim">>, [exclaim |-> "?", stars |-> "*"], NoFn, "a", TRUE),   \* same name, another directive
+     SC("fmax", <<>>, NoSfx, [vmax2 |-> "max"], "a", TRUE),
+     SC("fmin", <<>>, NoSfx, [vmax2 |-> "min"], "a", TRUE),          \* same name, another function
+     SC("ijB", <<>>, NoSfx, NoFn, "b", TRUE),                        \* other injected data
+     SC("nomsg", <<>>, NoSfx, NoFn, "a", FALSE) >>                   \* no catalogue
+SwitchNames == {SwitchCfgs[i].name : i \in 1..Len(SwitchCfgs)}
+SwitchCfg(n) == SwitchCfgs[CHOOSE i \in 1..Len(SwitchCfgs) : SwitchCfgs[i].name = n]
+IJB == M([who |-> S("V")])
+
+Switching == CfgName = "switch"
+Cfg0 == IF Switching THEN SwitchCfgs[2]      \* starts under "E": [E] -> render -> [S] -> render fits in 3 steps
+        ELSE [name |-> CfgName, ij |-> "a", msgs |-> TRUE] @@ FixedCfgs[CfgName]
 
 (***************************************************************************)
 (* Operations                                                              *)
 (***************************************************************************)
-Ops == {[op |-> "render", t |-> Templates[i], d |-> DataSets[j]] : i \in 1..3, j \in 1..3}
-       \cup {[op |-> "genjs", f |-> Files[i]] : i \in 1..2}
-       \cup {[op |-> "evalexpr"]}
+Ops == IF Switching
+       THEN {[op |-> "setcfg", c |-> n] : n \in SwitchNames}
+            \cup {[op |-> "render", t |-> "a.t1", d |-> "d1"], [op |-> "render", t |-> "a.t2", d |-> "d2"],
+                   [op |-> "render", t |-> "b.t3", d |-> "d1"]}
+       ELSE {[op |-> "render", t |-> Templates[i], d |-> DataSets[j]] : i \in 1..3, j \in 1..3}
+            \cup {[op |-> "genjs", f |-> Files[i]] : i \in 1..2}
+            \cup {[op |-> "evalexpr"]}
 
-ProgOf(r, st, o) ==
-  [bundle |-> r.bundle, entry |-> o.t, data |-> st.data[o.d], ij |-> st.ij,
-   glob |-> [x \in {} |-> Null], plan |-> [kind |-> "none"], cfg |-> TheCfg]
+ProgOf(r, st, c, o) ==
+  [bundle |-> r.bundle, entry |-> o.t, data |-> st.data[o.d], ij |-> IF c.ij = "b" THEN IJB ELSE st.ij,
+   glob |-> [x \in {} |-> Null], plan |-> [kind |-> "none"], cfg |-> c]
 
 \* generated JavaScript is a function of the tree; abstractly: the directive
 \* lists of the file's print nodes
@@ -188,26 +227,38 @@ JoinNames(ds, i) == IF i > Len(ds) THEN "" ELSE "|" \o ds[i].name \o JoinNames(d
 JSFrom(r, ids, i) == IF i > Len(ids) THEN ""
                      ELSE ids[i] \o JoinNames(r.dirs[ids[i]], 1) \o ";" \o JSFrom(r, ids, i + 1)
 
-\* the outcome of operation o on tree r and store st:
-\* [st, out, reg (the tree afterwards), data (the data map afterwards)]
-Outcome(r, st, o) ==
+\* the configuration a render works with: the current one (reference); the
+\* deviation keeps the obligatory list of an earlier render as long as the
+\* current list has the same LENGTH
+EffCfg(r, c) ==
+  IF "config_cached_by_length" \in Dev /\ Len(r.oblcache) = Len(c.oblig) /\ Len(c.oblig) > 0
+  THEN [c EXCEPT !.oblig = r.oblcache] ELSE c
+
+\* the outcome of operation o on tree r and store st under configuration c:
+\* [st, out, reg (the tree afterwards), store (the caller's values afterwards)]
+Outcome(r, st, c, o) ==
   CASE o.op = "render" ->
-         LET res == RunToEnd(InitOf(ProgOf(r, st, o)), r) IN
-         [st |-> res.s.status, out |-> res.s.out, reg |-> [r EXCEPT !.dirs = res.sh.dirs, !.memo = res.sh.memo],
+         LET ec == EffCfg(r, c)
+             res == RunToEnd(InitOf(ProgOf(r, st, ec, o)), r) IN
+         [st |-> res.s.status, out |-> res.s.out,
+          reg |-> [r EXCEPT !.dirs = res.sh.dirs, !.memo = res.sh.memo,
+                            !.oblcache = IF "config_cached_by_length" \in Dev THEN ec.oblig ELSE @],
           store |-> IF "render_mutates_data" \in Dev
                     THEN [st EXCEPT !.data[o.d] = res.s.act[1].tdata] ELSE st]
     [] o.op = "genjs" ->
          [st |-> "ok", out |-> JSFrom(r, FileIds[o.f], 1), reg |-> r, store |-> st]
+    [] o.op = "setcfg" -> [st |-> "ok", out |-> "", reg |-> r, store |-> st]
     [] OTHER ->
-         LET v == Eval(Ren(TheExpr, TheCfg.fns), [vars |-> [x \in {} |-> Null], ij |-> NoIJ, glob |-> [x \in {} |-> Null]]) IN
+         LET v == Eval(Ren(TheExpr, c.fns), [vars |-> [x \in {} |-> Null], ij |-> NoIJ, glob |-> [x \in {} |-> Null]]) IN
          [st |-> IF IsBad(v) THEN BadSt(v) ELSE IF Printable(v) THEN "ok" ELSE "unspec",
           out |-> IF IsBad(v) \/ ~Printable(v) THEN "" ELSE ToText(v), reg |-> r, store |-> st]
 
-Init == reg = Reg0 /\ store = Store0 /\ hist = <<>>
+Init == reg = Reg0 /\ store = Store0 /\ hist = <<>> /\ cfgv = Cfg0
 
-Do(o) == LET r == Outcome(reg, store, o) IN
+Do(o) == LET r == Outcome(reg, store, cfgv, o) IN
          /\ reg' = r.reg
          /\ store' = r.store
+         /\ cfgv' = IF o.op = "setcfg" THEN SwitchCfg(o.c) ELSE cfgv
          /\ hist' = Append(hist, [op |-> o, st |-> r.st, out |-> r.out])
 
 Next == Len(hist) < MaxLen /\ \E o \in Ops : Do(o)
@@ -217,13 +268,16 @@ Spec == Init /\ [][Next]_bvars
 (***************************************************************************)
 (* Properties                                                              *)
 (***************************************************************************)
+\* (changing the configuration is the embedder's act, not a render's: cfgv is
+\* not part of what must stay unchanged)
 Pure == [][reg' = reg /\ store' = store]_bvars
 
-\* the latest operation came out as it does on the pristine bundle (earlier
-\* ones were checked in the states before)
+\* output = f(current configuration, inputs): the latest operation came out
+\* as it does on the pristine bundle under the configuration in force
+\* (earlier ones were checked in the states before)
 HistoryIndependent ==
-  Len(hist) > 0 =>
-    LET e == hist[Len(hist)] f == Outcome(Reg0, Store0, e.op) IN e.st = f.st /\ e.out = f.out
+  (Len(hist) > 0 /\ hist[Len(hist)].op.op # "setcfg") =>
+    LET e == hist[Len(hist)] f == Outcome(Reg0, Store0, cfgv, e.op) IN e.st = f.st /\ e.out = f.out
 
 \* no render of the model leaves the model's domain or runs out of fuel.
 \* (Not an invariant of every configuration: without the custom function the
@@ -234,7 +288,11 @@ AllDecided == \A i \in 1..Len(hist) : hist[i].st \in {"ok", "err"}
 (***************************************************************************)
 (* Export (M2)                                                             *)
 (***************************************************************************)
-Setup == [cfgname |-> CfgName, cfg |-> [oblig |-> TheCfg.oblig, fns |-> TheCfg.fns],
+Setup == [cfgname |-> CfgName, cfg |-> [oblig |-> Cfg0.oblig, fns |-> Cfg0.fns],
+          switch |-> [i \in 1..Len(SwitchCfgs) |->
+                        [name |-> SwitchCfgs[i].name, oblig |-> SwitchCfgs[i].oblig, sfx |-> SwitchCfgs[i].sfx,
+                         fns |-> SwitchCfgs[i].fns, ij |-> SwitchCfgs[i].ij, msgs |-> SwitchCfgs[i].msgs]],
+          ijb |-> IJB,
           bundle |-> TheBundle, data |-> Store0.data, ij |-> Store0.ij, expr |-> TheExpr,
           files |-> Files]
 
